@@ -16,7 +16,14 @@ list / dict / set a query returned and asks again (`scribble_out`); (2) every no
 handed over in every collection type the unchanged code accepts, in every entry point (`Builder`); (3) a new equal label
 object for every call, universes with ints above the small-int cache, run-time strings, tuple labels (`Labeling.lab`);
 (4) aliasing IN - the harness changes the objects it handed to a call after the call (`scribble_in`); (5) filter x up_to
-x metadata/asdict combinations incl. falsy `order=0, size=0` given together."""
+x metadata/asdict combinations incl. falsy `order=0, size=0` given together.
+
+Strengthening round e: metadata VALUES of every JSON kind with its falsy member, inside dicts and - as the metadata of a
+node / hyperedge / the hypergraph itself - instead of a dict (0, '', [], None, False, 0.0, True, 'x', 7, [1, 2], 2.5; wire
+form `9:<value token>`, Lean `[(nonDict, v)]`), through every call that stores or carries metadata (constructor, add_node,
+add_edge(s), the three setters, remove_node(keep_edges=True), copy) and every call that implicitly re-adds nodes; item
+assignment on a non-dict value is a rejected call inside the history; the node-metadata-survives oracle runs for every
+call that must leave node metadata alone; `get_edges(subhypergraph=True)` objects are asked every query."""
 import contextlib
 import io
 import json
@@ -34,17 +41,24 @@ RULE = ("random histories of 1-40 public mutating calls (constructor with/withou
         "list is handed over in a collection type chosen per argument from tuple, list, set, frozenset, generator, dict keys, "
         "dict, range, numpy array (bare-node sides for integer labels), in every entry point; weights k/4, weighted and "
         "unweighted, 10-15% malformed calls (absent node/edge, weight on unweighted, short lists, bare node outside add_edge, "
-        "order and size together incl. falsy values, missing attribute, node listed twice in remove_nodes); after EVERY "
+        "order and size together incl. falsy values, missing attribute, attribute of a non-dict metadata value, node listed twice "
+        "in remove_nodes); node / hyperedge metadata of every JSON kind incl. falsy non-dict values, 35% of the histories annotate "
+        "nodes before the hyperedges touching them arrive; after EVERY "
         "operation (a) the caller changes the objects it handed to the call, (b) every query of DESIGN 3b is compared for every "
         "node of the universe + one absent node and filters none / random size / random order / both (all sizes 0-6, orders "
         "0-5 at the end of the history) x up_to x metadata/asdict flags, (c) the caller empties and refills every list / dict / "
         "set the queries RETURNED and asks again. "
         "distinct = canonical rank-level text of the history; non-trivial = at least one accepted removal AND one insertion of a "
         "(source,target) pair that is or was present; plus the EXHAUSTIVE set of all histories of <= 2 (quick) / <= 3 (thorough) "
-        "calls over an 18-call alphabet on 3 nodes, weighted and unweighted (bounded exploration supporting the tie)")
+        "calls over a 19-call alphabet on 3 nodes, weighted and unweighted (bounded exploration supporting the tie)")
 ASSUMPTIONS = ["hyperedges have disjoint, duplicate-free, non-empty source and target sets (the property's quantifier)",
                "labels are mutually comparable and reach the model as their rank in the sorted universe",
-               "weights are multiples of 1/4 (exact in binary64), metadata values come from a fixed JSON-like pool",
+               "weights are multiples of 1/4 (exact in binary64); metadata is a dict over six field names (incl. '') whose values come "
+               "from a pool with every JSON kind and its falsy member (False True 'x' '' 7 0 2.5 0.0 [1,2] [] {'a':1} {} None), or a "
+               "value that is NOT a dict (0 '' [] None False 0.0 True 'x' 7 [1,2] 2.5: the setters and add_node / add_edge store any "
+               "object; item assignment on it raises); None as a metadata ARGUMENT of add_node / add_edge / add_edges / the constructor "
+               "means 'not given' = {} (so does the metadata None of a hyperedge shrunk by remove_node(keep_edges=True)); the "
+               "constructor takes a dict or a falsy value (= {}) as hypergraph metadata, set_hypergraph_metadata any value",
                "batched calls (add_edges, remove_edges, remove_nodes, add_nodes) that raise keep the effects of the elements "
                "before the failing one - modelled as the Python loops behave, the property does not speak about atomicity",
                "exception classes are not compared (raised / not raised); listings are compared as multisets",
@@ -59,15 +73,36 @@ ASSUMPTIONS = ["hyperedges have disjoint, duplicate-free, non-empty source and t
 TRUSTED = ["harness/c02.py renderers and PySpec (independent reference of the abstract object)",
            "copy.deepcopy gives an independent object (exercised: both objects are queried after every later operation)",
            "Python's iteration protocol: tuple(x) / sorted(x) of any of the collection types yields its elements"]
-BUDGET_S = {"quick": 75, "thorough": 1500}
+BUDGET_S = {"quick": 64, "thorough": 1500}
 
 # ------------------------------------------------------------------------------------------------------------
 # tokens <-> python values
 
-ATTR = {0: "weighted", 1: "type", 2: "k2", 3: "k3", 4: "k4"}
+ATTR = {0: "weighted", 1: "type", 2: "k2", 3: "k3", 4: "k4", 5: ""}
 ATTR_R = {v: k for k, v in ATTR.items()}
-VALS = {0: False, 1: True, 2: "DirectedHypergraph", 3: "x", 4: 7, 5: [1, 2], 6: {"a": 1}, 7: 2.5}
+# every JSON kind, each with its falsy member: bool, string, int, list, dict, float, null
+VALS = {0: False, 1: True, 2: "DirectedHypergraph", 3: "x", 4: 7, 5: [1, 2], 6: {"a": 1}, 7: 2.5,
+        8: 0, 9: "", 10: [], 11: None, 12: {}, 13: 0.0}
 VALS_R = {json.dumps(v): k for k, v in VALS.items()}
+assert len(VALS_R) == len(VALS)
+# A metadata value that is NOT a dict (set_*_metadata / add_node / add_edge store whatever object they are given) is written
+# [[NOND, value token]] - the reserved attribute token of lean/Hgxv/Model/C02.lean (`nonDict`); never a dict key.
+NOND = 9
+FALSY_NONDICT = [8, 9, 10, 11, 0, 13]             # 0 '' [] None False 0.0
+TRUTHY_NONDICT = [1, 3, 4, 5, 7]                  # True 'x' 7 [1, 2] 2.5
+NONE_MD = [[NOND, 11]]
+DICT_VALUES = [3, 4, 5, 6, 7, 1, 0, 8, 9, 10, 11, 12]
+ATTR_NAMES = [2, 3, 4, 5]
+
+
+def is_nondict(md):
+    return md is not None and len(md) == 1 and md[0][0] == NOND
+
+
+def arg_md(md):
+    """metadata as the ARGUMENT of add_node / add_edge / add_edges / the constructor: Python's None means "not given" and
+    is stored as {} (`if metadata is None: metadata = {}`); every other value, falsy or not, is stored as it is"""
+    return [] if md is not None and [list(x) for x in md] == NONE_MD else md
 
 
 def py_val(v):
@@ -79,6 +114,8 @@ def py_meta(md):
     """md: list of [attr, value] pairs or None"""
     if md is None:
         return None
+    if is_nondict(md):
+        return py_val(md[0][1])
     return {ATTR[a]: py_val(v) for a, v in md}
 
 
@@ -140,6 +177,12 @@ def r_meta_tok(md):
 def r_meta_py(md):
     """metadata as the implementation returns it"""
     if not isinstance(md, dict):
+        try:
+            tok = VALS_R[json.dumps(md)]
+            if tok in FALSY_NONDICT or tok in TRUTHY_NONDICT:
+                return f"{NOND}:{tok}"
+        except Exception:
+            pass
         return "?" + repr(md)
     out = []
     for k, v in md.items():
@@ -348,7 +391,7 @@ class PySpec:
         self.weighted = weighted
         self.nodes = {}                      # node -> {attr: value}
         self.edges = {}                      # (frozenset S, frozenset T) -> [weight quanta, {attr: value}]
-        self.hmeta = dict(hm or [])
+        self.hmeta = {} if is_nondict(hm) else dict(hm or [])        # `hypergraph_metadata or {}`: a falsy value of any type is {}
         self.hmeta[0] = 1 if weighted else 0
         self.hmeta[1] = 2
         for n, md in (nm or []):
@@ -368,8 +411,8 @@ class PySpec:
 
     # -- mutators
     def add_node(self, n, md=None):
-        if n not in self.nodes or self.nodes[n] == {}:
-            self.nodes[n] = dict(md or [])
+        if n not in self.nodes or self.nodes[n] == {}:          # {NOND: v} stands for a non-dict value: never equal to {}
+            self.nodes[n] = dict(arg_md(md) or [])
 
     def add_nodes(self, ns):
         for n in ns:
@@ -384,11 +427,11 @@ class PySpec:
         if key not in self.edges:
             for n in S + T:
                 self.add_node(n)
-            self.edges[key] = [(4 if w is None else w) if self.weighted else 4, dict(md or [])]
+            self.edges[key] = [(4 if w is None else w) if self.weighted else 4, dict(arg_md(md) or [])]
         else:
             if self.weighted:
                 self.edges[key][0] += 4 if w is None else w
-            self.edges[key][1] = dict(md or [])
+            self.edges[key][1] = dict(arg_md(md) or [])
 
     def add_edges(self, es, ws=None, mds=None):
         if ws is not None:
@@ -419,7 +462,7 @@ class PySpec:
                 S, T = k[0] - {n}, k[1] - {n}
                 if S and T:
                     w, md = self.edges[k]
-                    self.add_edge((sorted(S), sorted(T)), w, list(md.items()))
+                    self.add_edge((sorted(S), sorted(T)), w, [list(x) for x in md.items()])
         for k in inc:
             del self.edges[k]
         del self.nodes[n]
@@ -475,21 +518,19 @@ class PySpec:
         elif op == "sethm":
             self.hmeta = dict(c[2])
         elif op == "attrh":
+            if NOND in self.hmeta:
+                raise Rej()
             self.hmeta[c[2]] = c[3]
-        elif op == "attrn":
-            self.node_md(c[2])[c[3]] = c[4]
-        elif op == "attre":
-            self.edge_rec(c[2])[1][c[3]] = c[4]
-        elif op == "deln":
-            md = self.node_md(c[2])
-            if c[3] not in md:
+        elif op in ("attrn", "attre", "deln", "dele"):
+            md = self.node_md(c[2]) if op[-1] == "n" else self.edge_rec(c[2])[1]
+            if NOND in md:                  # item assignment / deletion on 0, '', [], None, [1, 2], ...: TypeError
                 raise Rej()
-            del md[c[3]]
-        elif op == "dele":
-            md = self.edge_rec(c[2])[1]
-            if c[3] not in md:
-                raise Rej()
-            del md[c[3]]
+            if op.startswith("attr"):
+                md[c[3]] = c[4]
+            else:
+                if c[3] not in md:
+                    raise Rej()
+                del md[c[3]]
         elif op == "clear":
             self.nodes = {}
             self.edges = {}
@@ -634,6 +675,23 @@ def e_nodemetas(nm):
 
 def e_nodes(ns):
     return j(",", "-", [str(n) for n in ns])
+
+
+def encode_model(c):
+    """the line the Lean driver reads: as `encode`, but Python's None (and, for the constructor's hypergraph_metadata, any
+    falsy value) in a metadata ARGUMENT position is written as what the call does with it - {}"""
+    op = c[0]
+    if op == "new":
+        _, sl, w, hm, nm, es, ws, mds = c
+        c = [op, sl, w, None if is_nondict(hm) else hm, None if nm is None else [[n, arg_md(md)] for n, md in nm], es, ws,
+             None if mds is None else [arg_md(md) for md in mds]]
+    elif op == "addnode":
+        c = c[:3] + [arg_md(c[3])]
+    elif op == "addedge":
+        c = c[:4] + [arg_md(c[4])]
+    elif op == "addedges":
+        c = c[:4] + [None if c[4] is None else [arg_md(md) for md in c[4]]]
+    return encode(c)
 
 
 def encode(c):
@@ -1117,6 +1175,36 @@ def named_oracles(h, lab, U):
     return bad
 
 
+def subhypergraph_oracle(h, spec, lab, U, i):
+    """`get_edges(..., subhypergraph=True)` hands the selected hyperedges back as a DirectedHypergraph: it holds exactly the
+    hyperedges of that size / order with their weights and metadata, and the nodes (all of them with
+    keep_isolated_nodes=True, else the endpoints) with THEIR metadata - an object made by the library's own add_nodes /
+    add_edges / set_*_metadata, asked with every query"""
+    bad = []
+    for f, keep in ((None, True), (("s", 2 + i % 3), True), (("o", 1 + i % 2), False)):
+        ok, sub = call(h.get_edges, subhypergraph=True, keep_isolated_nodes=keep, **filt_kwargs(f))
+        what = f"get_edges({filt_kwargs(f)}, subhypergraph=True, keep_isolated_nodes={keep})"
+        if not ok:
+            bad.append(f"{what} raised")
+            continue
+        c = spec.clone()
+        m = filt_size(f)
+        c.edges = {k: v for k, v in c.edges.items() if m is None or len(k[0]) + len(k[1]) == m}
+        if not keep:
+            c.nodes = {n: md for n, md in c.nodes.items() if any(n in k[0] or n in k[1] for k in c.edges)}
+        want = c.digest(U, [None])
+        try:
+            got = digest_impl(sub, lab, U, [None])
+        except Exception as ex:
+            bad.append(f"{what}: the returned object cannot be queried ({type(ex).__name__})")
+            continue
+        for lbl, v in want.items():
+            if lbl != "hmeta" and got.get(lbl) != v:
+                bad.append(f"{what}: query {lbl} on the returned hypergraph answers {got.get(lbl)!r}, the selected part of the abstract object {v!r}")
+                break
+    return bad
+
+
 def removed_node_oracle(h, x):
     """after an accepted remove_node(x)"""
     bad = []
@@ -1152,14 +1240,18 @@ def removed_node_oracle(h, x):
 ALL_FILTERS = [None] + [("s", k) for k in range(0, 7)] + [("o", k) for k in range(0, 6)] + ["b"]
 
 
-def gen_meta(rng, allow_none=True):
+def gen_meta(rng, allow_none=True, dict_only=False):
+    """None = argument not given | {} | a dict whose values are of every JSON kind incl. the falsy ones | a value that is
+    not a dict at all (0, '', [], None, False, 0.0 twice as often as True, 'x', 7, [1, 2], 2.5)"""
     r = rng.random()
-    if allow_none and r < 0.35:
+    if allow_none and r < 0.3:
         return None
-    if r < 0.5:
+    if r < 0.42:
         return []
-    attrs = rng.sample([2, 3, 4], rng.randint(1, 2))
-    return [[a, rng.choice([3, 4, 5, 6, 7, 1])] for a in attrs]
+    if not dict_only and r < 0.68:
+        return [[NOND, rng.choice(FALSY_NONDICT + FALSY_NONDICT + TRUTHY_NONDICT)]]
+    attrs = rng.sample(ATTR_NAMES, rng.randint(1, 2))
+    return [[a, rng.choice(DICT_VALUES)] for a in attrs]
 
 
 def gen_edge(rng, U, maxsize=5):
@@ -1226,11 +1318,21 @@ def gen_history(rng):
             if mds and rng.random() < 0.1:
                 mds = mds[:-1]
         nm = [[n, gen_meta(rng, False)] for n in rng.sample(range(U), rng.randint(0, 3))] if rng.random() < 0.5 else None
-        hm = gen_meta(rng, False) if rng.random() < 0.4 else None
+        hm = gen_meta(rng, False, dict_only=True) if rng.random() < 0.4 else None
+        if hm is not None and rng.random() < 0.2:
+            hm = [[NOND, rng.choice(FALSY_NONDICT)]]          # `hypergraph_metadata or {}`
         cmds.append(["new", 0, weighted, hm, nm, es, ws, mds])
         # a rejected constructor leaves no object: make sure there is one
         cmds.append(["new", 0, weighted, None, None, None, None, None]) if rng.random() < 0.0 else None
         cmds = [c for c in cmds if c]
+    if rng.random() < 0.35:          # nodes (and a hyperedge) annotated before the hyperedges that touch them arrive
+        for n in rng.sample(range(U), rng.randint(1, 3)):
+            md = gen_meta(rng, False)
+            cmds.append(["addnode", 0, n, md] if rng.random() < 0.5 else ["setnm", 0, n, md])
+        if rng.random() < 0.5:
+            e = rng.choice(pool)
+            cmds.append(["addedge", 0, relist(rng, e, False), None, None])
+            cmds.append(["setem", 0, relist(rng, e, False), gen_meta(rng, False)])
     slots = [0]
     have_copy = False
     for _ in range(n_ops):
@@ -1283,15 +1385,15 @@ def gen_history(rng):
         elif r < 0.845:
             cmds.append(["sethm", sl, gen_meta(rng, False)])
         elif r < 0.86:
-            cmds.append(["attrh", sl, rng.choice([2, 3, 4]), rng.choice([3, 4, 5])])
+            cmds.append(["attrh", sl, rng.choice(ATTR_NAMES), rng.choice(DICT_VALUES)])
         elif r < 0.89:
-            cmds.append(["attrn", sl, rng.randrange(U), rng.choice([2, 3, 4]), rng.choice([3, 4, 5, 6])])
+            cmds.append(["attrn", sl, rng.randrange(U), rng.choice(ATTR_NAMES), rng.choice(DICT_VALUES)])
         elif r < 0.92:
-            cmds.append(["attre", sl, an_edge(False), rng.choice([2, 3, 4]), rng.choice([3, 4, 5, 6])])
+            cmds.append(["attre", sl, an_edge(False), rng.choice(ATTR_NAMES), rng.choice(DICT_VALUES)])
         elif r < 0.94:
-            cmds.append(["deln", sl, rng.randrange(U), rng.choice([2, 3, 4])])
+            cmds.append(["deln", sl, rng.randrange(U), rng.choice(ATTR_NAMES)])
         elif r < 0.96:
-            cmds.append(["dele", sl, an_edge(False), rng.choice([2, 3, 4])])
+            cmds.append(["dele", sl, an_edge(False), rng.choice(ATTR_NAMES)])
         elif r < 0.975:
             cmds.append(["clear", sl])
         else:
@@ -1309,6 +1411,11 @@ def gen_history(rng):
 
 # ------------------------------------------------------------------------------------------------------------
 # executing one history against the three parties
+
+# calls that must leave the metadata of every node that is still there as it was (type and value): the implicit add_node of
+# add_edge / add_edges / remove_node(keep_edges=True) and add_nodes on a present node never overwrite
+KEEPS_NODE_METADATA = ("addedge", "addedges", "addnodes", "rmnode", "rmnodes", "rmedge", "rmedges", "setw", "setem", "attre", "dele")
+
 
 def pick_filters(rng, final):
     """no filter + three filters drawn uniformly from ALL of size 0..6 / order 0..5 / both (boundary values such as
@@ -1347,7 +1454,7 @@ def run_history(ctx, drv, hist, rng, every=True):
         stats["ops"] += 1
         before_md = None
         targets = [c[1]] if c[0] not in ("copy",) else [c[2]]
-        h_before = objs.get(c[1]) if c[0] in ("addedge", "addedges") else None
+        h_before = objs.get(c[1]) if c[0] in KEEPS_NODE_METADATA else None
         if h_before is not None:
             ok, before_md = call(lambda: {x: json.dumps(m, sort_keys=True) for x, m in h_before.get_nodes(metadata=True).items()})
             if not ok:
@@ -1357,7 +1464,7 @@ def run_history(ctx, drv, hist, rng, every=True):
         a_impl, c = apply_impl(objs, lab, c, salt, notes)
         a_spec = apply_spec(specs, c)
         line = encode(c)
-        model_lines.append(line)
+        model_lines.append(encode_model(c))
         model_expect.append(("out", i, a_impl))
         if a_impl != a_spec:
             problems.append(("violation", f"operation {i} `{line}`: implementation {'raised' if a_impl == 'rej' else 'accepted'}, "
@@ -1389,7 +1496,7 @@ def run_history(ctx, drv, hist, rng, every=True):
             ok, after = call(lambda: {x: json.dumps(m, sort_keys=True) for x, m in objs[c[1]].get_nodes(metadata=True).items()})
             if ok:
                 for x, m in before_md.items():
-                    if after.get(x) != m:
+                    if after.get(x) != m and (x in after or c[0] in ("addedge", "addedges", "addnodes", "rmedge", "rmedges", "setw")):
                         problems.append(("violation", f"operation {i} `{line}` changed the metadata of node {x!r} "
                                                       f"from {m} to {after.get(x)}", i))
                         break
@@ -1408,7 +1515,7 @@ def run_history(ctx, drv, hist, rng, every=True):
                     problems.append(("violation", f"after operation {i} `{line}` query {lbl} (object {sl}): implementation answers "
                                                   f"{d_impl.get(lbl)!r}, the abstract object {v!r}", i))
                     break
-            for w in named_oracles(objs[sl], lab, U):
+            for w in named_oracles(objs[sl], lab, U) + (subhypergraph_oracle(objs[sl], specs[sl], lab, U, i) if final and not problems else []):
                 problems.append(("violation", f"after operation {i} `{line}` (object {sl}): {w}", i))
             model_lines.append(f"dig {sl} {U} " + ",".join(fkey(f) for f in filters))
             model_expect.append(("dig", i, d_impl))
@@ -1493,8 +1600,10 @@ def _edges_of(c):
 def shrink(ctx, drv, hist, kind, rng_seed):
     """greedy removal of operations while a problem of the same kind remains"""
     import random
+    import time
     cur = dict(hist)
     tries = 0
+    t_end = time.time() + 15          # on a loaded machine shrinking must not eat the budget (nor the hang alarm)
 
     def fails(hh):
         p, _ = run_history(ctx, drv, hh, random.Random(rng_seed))
@@ -1507,9 +1616,11 @@ def shrink(ctx, drv, hist, kind, rng_seed):
     upto = min(x[2] for x in p)
     cur = {**cur, "cmds": cur["cmds"][:upto + 1]}
     changed = True
-    while changed and tries < 120:
+    while changed and tries < 120 and time.time() < t_end:
         changed = False
         for idx in range(len(cur["cmds"]) - 1, 0, -1):
+            if time.time() > t_end:
+                break
             tries += 1
             cand = {**cur, "cmds": cur["cmds"][:idx] + cur["cmds"][idx + 1:]}
             if cand["cmds"] and cand["cmds"][0][0] == "new" and fails(cand):
@@ -1537,6 +1648,13 @@ def check_history(ctx, drv, hist, seed):
     signal.alarm(30)            # a history normally takes < 0.2 s; a hanging call becomes a `rej` observation
     try:
         return _check_history(ctx, drv, hist, seed)
+    except Hang:
+        # the alarm went off outside a wrapped implementation call (the calls before it used up the time): the history
+        # (< 0.2 s on the unchanged tree) did not finish within 30 s
+        what = "calls of the implementation did not return in time (30 s for one history): the history could not be completed"
+        ctx.violation({"U": hist["U"], "kind": hist["kind"], "cmds": hist["cmds"], "pool": hist["pool"], "seed": seed,
+                       "salt": hist.get("salt"), "lines": [encode(c) for c in hist["cmds"]]}, what)
+        return [("violation", what, 0)]
     finally:
         signal.alarm(0)
         signal.signal(signal.SIGALRM, old)
@@ -1563,7 +1681,13 @@ def _check_history(ctx, drv, hist, seed):
         ctx.count("equivariance_runs")
     if problems:
         kind = "violation" if any(p[0] == "violation" for p in problems) else "disagree"
-        small, what = shrink(ctx, drv if kind == "disagree" else None, hist, kind, seed)
+        import signal
+        try:
+            signal.alarm(60)        # the alarm armed by check_history covered the run; shrinking gets its own
+            small, what = shrink(ctx, drv if kind == "disagree" else None, hist, kind, seed)
+        except Hang:                # a changed implementation that hangs while the history is being shrunk: report it unshrunk
+            small, what = hist, None
+        signal.alarm(60)
         if what is None:
             small, what = hist, [p for p in problems if p[0] == kind][0][1]
         case = {"U": small["U"], "kind": small["kind"], "cmds": small["cmds"], "pool": small["pool"], "seed": seed, "salt": small.get("salt"),
@@ -1577,7 +1701,7 @@ EXH_ALPHABET = [
     ["addedge", 0, [[1], [0]], None, None],                 # the reverse hyperedge
     ["addedge", 0, [[1, 0], [2]], None, [[2, 3]]],
     ["addedge", 0, [[0], [2, 1]], None, None],              # collapses onto ((0,),(1,)) when node 2 is removed
-    ["addedge", 0, [0, [1]], 8, [[3, 4]]],                  # bare-node source, weight 2 (rejected when unweighted)
+    ["addedge", 0, [0, [1]], 8, [[NOND, 10]]],              # bare-node source, weight 2 (rejected when unweighted), metadata []
     ["rmedge", 0, [[0], [1]]],
     ["rmedge", 0, [[0, 1], [2]]],
     ["rmnode", 0, 2, True],
@@ -1586,7 +1710,8 @@ EXH_ALPHABET = [
     ["rmnode", 0, 1, False],
     ["addnode", 0, 2, [[4, 5]]],
     ["setw", 0, [[0], [1]], 6],
-    ["setnm", 0, 0, [[2, 6]]],
+    ["setnm", 0, 0, [[NOND, 8]]],                           # node metadata 0: falsy, not a dict, must survive everything
+    ["attrn", 0, 1, 5, 11],                                 # {'': None}
     ["attre", 0, [[0], [1]], 2, 3],
     ["dele", 0, [[0], [1]], 2],
     ["clear", 0],
@@ -1595,7 +1720,7 @@ EXH_ALPHABET = [
 
 
 def exhaustive(ctx, drv, maxlen):
-    """bounded exploration supporting the tie: EVERY history of at most `maxlen` calls over an 18-call alphabet on a
+    """bounded exploration supporting the tie: EVERY history of at most `maxlen` calls over a 19-call alphabet on a
     3-node universe, weighted and unweighted (all queries, all filters, after every call)"""
     import itertools
     import copy as _copy
